@@ -22,8 +22,11 @@ import (
 	"encoding/json"
 	"errors"
 	"fmt"
+	"io"
 	"os"
+	"runtime"
 	"strings"
+	"sync"
 	"time"
 
 	enc "github.com/dapr/kit/schemes/enc/v1"
@@ -32,7 +35,7 @@ import (
 	"verifharness/lib"
 )
 
-const rule = "document case: distinct (base seeds, plaintext length, cipher, mutation list, script, unwrap mode) with at least one mutation or a failing source; loop case: distinct (segment size, length, mutation, script)"
+const rule = "history case: distinct (tamper, lengths, bytes read first, mode, GOMAXPROCS); document case: distinct (base seeds, plaintext length, cipher, mutation list, script, unwrap mode) with at least one mutation or a failing source; loop case: distinct (segment size, length, mutation, script)"
 
 const S = 65536
 const SS = S + 16
@@ -68,8 +71,9 @@ type Case struct {
 	Muts     []Mut       `json:"mutations"`
 	Unwrap   string      `json:"unwrap"` // ok other short error long
 	Script   encx.Script `json:"script"`
-	FailAt   int         `json:"fail_at"`    // -1 = source does not fail, else offset into the mutated document
-	FailCls  string      `json:"fail_class"` // offset class of FailAt
+	FailAt   int         `json:"fail_at"`                        // -1 = source does not fail, else offset into the mutated document
+	FailCls  string      `json:"fail_class"`                     // offset class of FailAt
+	Resume   bool        `json:"resume_after_failure,omitempty"` // failOnce only: the source goes on delivering the rest of the document after its transient failure
 	Consumer []int       `json:"consumer_bufs"`
 }
 
@@ -254,6 +258,18 @@ func offsetOf(doc []byte, class string, a int) int {
 			return len(doc)
 		}
 		return l.segs[a%len(l.segs)][1]
+	case "seg-boundary+1": // the byte that completes segmentSize+1 in the loop's buffer (look-ahead byte of the next segment)
+		if len(l.segs) == 0 {
+			return len(doc)
+		}
+		o := l.segs[a%len(l.segs)][1] + 1
+		if len(l.segs) > 1 {
+			o = l.segs[a%(len(l.segs)-1)][1] + 1
+		}
+		if o > len(doc) {
+			o = len(doc)
+		}
+		return o
 	case "end-1":
 		if len(doc) > 0 {
 			return len(doc) - 1
@@ -265,7 +281,7 @@ func offsetOf(doc []byte, class string, a int) int {
 	return a % (len(doc) + 1)
 }
 
-var offsetClasses = []string{"start", "in-scheme", "in-manifest", "in-mac", "header-end-1", "header-end", "header-end+1", "in-body", "body-end", "in-tag", "seg-boundary", "end-1", "end"}
+var offsetClasses = []string{"start", "in-scheme", "in-manifest", "in-mac", "header-end-1", "header-end", "header-end+1", "in-body", "body-end", "in-tag", "seg-boundary", "seg-boundary+1", "end-1", "end"}
 
 func editManifest(doc []byte, field string, a int) []byte {
 	l := layoutOf(doc)
@@ -423,6 +439,9 @@ func runDecrypt(c Case, doc []byte, A, B orig) obs {
 	if c.FailAt >= 0 {
 		if c.FailAt < len(doc) {
 			sc.Data = doc[:c.FailAt]
+			if c.Resume && sc.Term == "failOnce" {
+				sc.ResumeData = doc[c.FailAt:]
+			}
 		}
 	} else {
 		sc.Term = "eof"
@@ -492,7 +511,11 @@ func mutIDs(c Case) string {
 		ids = append(ids, m.id())
 	}
 	if c.FailAt >= 0 {
-		ids = append(ids, "srcfail@"+c.FailCls)
+		if c.Resume {
+			ids = append(ids, "srcfail-transient@"+c.FailCls)
+		} else {
+			ids = append(ids, "srcfail@"+c.FailCls)
+		}
 	}
 	if c.Unwrap != "ok" && c.Unwrap != "" {
 		ids = append(ids, "unwrap="+c.Unwrap)
@@ -542,7 +565,10 @@ func monitor(res *lib.Result, c Case, A, B orig, doc []byte, o obs) {
 	// never end in a clean EOF; an EOF-class error is an end-of-stream signal and is judged as a
 	// truncation at that offset below
 	if c.FailAt >= 0 && c.Script.Fails() && o.term == "ok" {
-		id := "source-error-lost:" + errKind(c)
+		id := "source-error-lost"
+		if c.Resume {
+			id = "source-error-lost:transient"
+		}
 		if o.failedInHeader {
 			id = "header-read-error-swallowed"
 		}
@@ -694,6 +720,12 @@ func gen(tier string, rng *lib.Rand, search bool) []Case {
 							c.Script.Caps = nil
 						}
 						cases = append(cases, c)
+						if t == "failOnce" {
+							// the same failure as a transient one: the source goes on with the rest of the document
+							c2 := c
+							c2.Resume = true
+							cases = append(cases, c2)
+						}
 					}
 				}
 			}
@@ -728,6 +760,7 @@ func gen(tier string, rng *lib.Rand, search bool) []Case {
 			c.FailAt = -2
 			c.Script.Term = []string{"failOnce", "failSticky"}[rng.Intn(2)]
 			c.Script.Err = encx.ErrKinds[rng.Intn(len(encx.ErrKinds))]
+			c.Resume = c.Script.Term == "failOnce" && rng.Bool()
 		}
 		cases = append(cases, c)
 	}
@@ -786,6 +819,9 @@ func runCase(res *lib.Result, drv *lib.Drv, real bool, c Case, idx int) {
 	if c.FailAt >= 0 {
 		res.Hit("srcfail@" + c.FailCls)
 		res.Hit("srcerr=" + errKind(c))
+		if c.Resume {
+			res.Hit("srcfail-transient")
+		}
 	}
 	res.Hit("unwrap=" + c.Unwrap)
 	res.Hit("len=" + lenClass(c.LenA))
@@ -830,6 +866,257 @@ func runCase(res *lib.Result, drv *lib.Drv, real bool, c Case, idx int) {
 	}
 }
 
+// ---- histories: a rejected document first, then overlapping streams (pool hygiene) ----
+
+type histCase struct {
+	Kind      string `json:"kind"` // history
+	SeedT     uint64 `json:"seed_tampered"`
+	SeedB     uint64 `json:"seed_b"`
+	SeedC     uint64 `json:"seed_c"`
+	LenT      int    `json:"len_tampered"`
+	LenB      int    `json:"len_b"`
+	LenC      int    `json:"len_c"`
+	Cipher    string `json:"cipher"`
+	Tamper    Mut    `json:"tamper"`
+	Rejected  int    `json:"rejected_documents"` // how many tampered documents are decrypted to their error first
+	ReadFirst int    `json:"read_first"`         // bytes of B consumed before C starts
+	Mode      string `json:"mode"`               // same | parallel
+	CKind     string `json:"c_kind"`             // decrypt | roundtrip (Encrypt then Decrypt) | tampered
+	Procs     int    `json:"gomaxprocs"`         // 0 = unchanged
+	Probe     bool   `json:"pool_probe"`         // instead of B/C: drain BufPool and look for one buffer handed out twice
+}
+
+func histDec(doc []byte) (io.Reader, error) {
+	return enc.Decrypt(bytes.NewReader(doc), enc.DecryptOptions{UnwrapKeyFn: func(w []byte, alg, kn string, nonce, tag []byte) ([]byte, error) {
+		return mask(w, 0x5c), nil
+	}})
+}
+
+func settle() {
+	for i := 0; i < 50; i++ {
+		runtime.Gosched()
+	}
+	time.Sleep(2 * time.Millisecond)
+	for i := 0; i < 50; i++ {
+		runtime.Gosched()
+	}
+}
+
+// judge one stream against its original: prefix always; a valid document must come out whole.
+func judgeStream(name string, got []byte, terr error, plain []byte, valid bool) (string, string) {
+	if !encx.IsPrefix(got, plain) {
+		return "released-not-prefix:after-rejected-document", fmt.Sprintf("stream %s released %d bytes that are not a prefix of its plaintext (first difference at %d)%s", name, len(got), firstDiff(got, plain), map[bool]string{true: ", WITHOUT error", false: ", then " + fmt.Sprint(terr)}[terr == nil])
+	}
+	if terr == nil && len(got) != len(plain) {
+		return "silent-truncation:after-rejected-document", fmt.Sprintf("stream %s ended cleanly after %d of %d bytes", name, len(got), len(plain))
+	}
+	if valid && terr != nil {
+		return "valid-stream-error:after-rejected-document", fmt.Sprintf("stream %s of an untouched document failed after %d bytes: %v", name, len(got), terr)
+	}
+	return "", ""
+}
+
+func firstDiff(a, b []byte) int {
+	for i := 0; i < len(a) && i < len(b); i++ {
+		if a[i] != b[i] {
+			return i
+		}
+	}
+	if len(a) < len(b) {
+		return len(a)
+	}
+	return len(b)
+}
+
+func runHistory(c histCase) (problems [][2]string, err error) {
+	if c.Procs > 0 {
+		old := runtime.GOMAXPROCS(c.Procs)
+		defer runtime.GOMAXPROCS(old)
+	}
+	T, err := mkDoc(c.SeedT, c.LenT, c.Cipher, 0x5c)
+	if err != nil {
+		return nil, err
+	}
+	B, err := mkDoc(c.SeedB, c.LenB, c.Cipher, 0x5c)
+	if err != nil {
+		return nil, err
+	}
+	C, err := mkDoc(c.SeedC, c.LenC, c.Cipher, 0x5c)
+	if err != nil {
+		return nil, err
+	}
+	tampered := applyMut(T.doc, c.Tamper, T, T)
+	var mu sync.Mutex
+	add := func(id, what string) {
+		if id != "" {
+			mu.Lock()
+			problems = append(problems, [2]string{id, what})
+			mu.Unlock()
+		}
+	}
+	// 1. rejected documents, each read to its terminal
+	for i := 0; i < c.Rejected; i++ {
+		r, derr := histDec(tampered)
+		if derr != nil {
+			continue
+		}
+		got, terr := encx.Drain(r, nil)
+		add(judgeStream(fmt.Sprintf("T%d (tampered)", i), got, terr, T.plain, false))
+		settle()
+	}
+	// 2a. pool hygiene: no buffer may be in the pool twice
+	if c.Probe {
+		seen := map[*[]byte]int{}
+		var order []*[]byte
+		for i := 0; i < 8; i++ {
+			b, _ := enc.BufPool.Get().(*[]byte)
+			if b == nil {
+				continue
+			}
+			seen[b]++
+			if seen[b] == 1 {
+				order = append(order, b)
+			}
+		}
+		for b, n := range seen {
+			if n > 1 {
+				add("bufpool-double-put", fmt.Sprintf("after %d rejected document(s) BufPool handed out the same buffer %p %d times without a Put in between (it was Put twice)", c.Rejected, b, n))
+			}
+		}
+		for _, b := range order {
+			enc.BufPool.Put(b)
+		}
+		return problems, nil
+	}
+	// 2b. overlapping streams
+	runC := func() {
+		switch c.CKind {
+		case "roundtrip":
+			er, eerr := enc.Encrypt(bytes.NewReader(C.plain), enc.EncryptOptions{Algorithm: enc.KeyAlgorithmAES256KW, KeyName: "kek",
+				WrapKeyFn: func(k []byte, alg, kn string, nonce []byte) ([]byte, []byte, error) { return mask(k, 0x5c), nil, nil }})
+			if eerr != nil {
+				add("valid-stream-error:after-rejected-document", "Encrypt C: "+eerr.Error())
+				return
+			}
+			doc, terr := encx.Drain(er, nil)
+			if terr != nil {
+				add("valid-stream-error:after-rejected-document", "Encrypt stream C: "+terr.Error())
+				return
+			}
+			r, derr := histDec(doc)
+			if derr != nil {
+				add("valid-stream-error:after-rejected-document", "Decrypt C (of a fresh Encrypt): "+derr.Error())
+				return
+			}
+			got, terr := encx.Drain(r, nil)
+			add(judgeStream("C (round trip)", got, terr, C.plain, true))
+		case "tampered":
+			r, derr := histDec(applyMut(C.doc, c.Tamper, C, C))
+			if derr != nil {
+				return
+			}
+			got, terr := encx.Drain(r, nil)
+			add(judgeStream("C (tampered)", got, terr, C.plain, false))
+		default:
+			r, derr := histDec(C.doc)
+			if derr != nil {
+				add("valid-stream-error:after-rejected-document", "Decrypt C: "+derr.Error())
+				return
+			}
+			got, terr := encx.Drain(r, []int{4096})
+			add(judgeStream("C", got, terr, C.plain, true))
+		}
+	}
+	rB, derr := histDec(B.doc)
+	if derr != nil {
+		add("valid-stream-error:after-rejected-document", "Decrypt B: "+derr.Error())
+		return problems, nil
+	}
+	head := make([]byte, c.ReadFirst)
+	n, rerr := io.ReadFull(rB, head)
+	head = head[:n]
+	if rerr != nil && rerr != io.EOF && rerr != io.ErrUnexpectedEOF {
+		add(judgeStream("B", head, rerr, B.plain, true))
+		return problems, nil
+	}
+	settle()
+	var wg sync.WaitGroup
+	if c.Mode == "parallel" {
+		wg.Add(1)
+		go func() { defer wg.Done(); runC() }() // C runs while B is being drained
+	} else {
+		runC()
+	}
+	rest, terr := encx.Drain(rB, []int{1000})
+	wg.Wait()
+	add(judgeStream("B (partly read while C ran)", append(head, rest...), terr, B.plain, true))
+	return problems, nil
+}
+
+func genHistory(tier string, rng *lib.Rand, search bool) []histCase {
+	var cases []histCase
+	tampers := []Mut{{Kind: "flip", Class: "body", A: 12345, Bit: 3}, {Kind: "flip", Class: "tag", A: 5, Bit: 0}, {Kind: "trunc", Class: "in-body", A: 7}, {Kind: "segdup", A: 0}}
+	i := 0
+	for _, tm := range tampers {
+		for _, procs := range []int{1, 0} {
+			cases = append(cases, histCase{Kind: "history", SeedT: rng.U64(), LenT: []int{300, 70000}[i%2], LenB: 1, LenC: 1, Cipher: "AES-GCM",
+				Tamper: tm, Rejected: 1 + i%2, Procs: procs, Probe: true})
+			for _, rf := range []int{0, 10, 40000} {
+				for _, ck := range []string{"decrypt", "roundtrip", "tampered"} {
+					for _, mode := range []string{"same", "parallel"} {
+						i++
+						if tier == "quick" && !search && i%3 != 0 && !(procs == 1 && mode == "same" && ck == "decrypt") {
+							continue
+						}
+						cases = append(cases, histCase{Kind: "history", SeedT: rng.U64(), SeedB: rng.U64(), SeedC: rng.U64(),
+							LenT: []int{300, 70000}[i%2], LenB: []int{100000, 300, 131073}[i%3], LenC: []int{70000, 500}[i%2],
+							Cipher: []string{"AES-GCM", "CHACHA20-POLY1305"}[i%2], Tamper: tm, Rejected: 1 + i%2, ReadFirst: rf,
+							Mode: mode, CKind: ck, Procs: procs})
+					}
+				}
+			}
+		}
+	}
+	return cases
+}
+
+func checkHistory(res *lib.Result, c histCase, idx int) {
+	if encx.TooStuck() {
+		return
+	}
+	encx.Inflight(c)
+	var problems [][2]string
+	var herr error
+	gerr := encx.Guard(120*time.Second, func() error { problems, herr = runHistory(c); return nil })
+	key, _ := json.Marshal(c)
+	res.Count(string(key), true)
+	if c.Probe {
+		res.Hit("history.pool-probe")
+	} else {
+		res.Hit("history.c=" + c.CKind)
+		res.Hit("history.mode=" + c.Mode)
+	}
+	res.Hit(fmt.Sprintf("history.gomaxprocs=%d", c.Procs))
+	res.Hit("history.tamper=" + c.Tamper.id())
+	if idx%23 == 0 {
+		res.Sample(c)
+	}
+	if gerr != nil {
+		res.Violate("history-"+encx.Canon(gerr), "a history of streams did not finish: "+gerr.Error(), c)
+		return
+	}
+	if herr != nil {
+		res.Violate("encrypt-fails", "Encrypt failed while preparing a valid document: "+herr.Error(), c)
+		return
+	}
+	for _, p := range problems {
+		res.Violate(p[0], p[1], c)
+	}
+	if len(problems) == 0 {
+		res.Hit("history.ok")
+	}
+}
+
 func main() {
 	f := lib.ParseFlags()
 	encx.Supervise(f.Out, rule, func() { run(f) })
@@ -870,6 +1157,10 @@ func run(f lib.Flags) {
 		json.Unmarshal(rf.Case, &kind)
 		if kind.Kind == "toy" {
 			encx.RunLoop("c02", f, res)
+		} else if kind.Kind == "history" {
+			var c histCase
+			json.Unmarshal(rf.Case, &c)
+			checkHistory(res, c, 1)
 		} else {
 			var c Case
 			if err := json.Unmarshal(rf.Case, &c); err != nil {
@@ -888,6 +1179,9 @@ func run(f lib.Flags) {
 	cases := gen(f.Tier, rng.Fork(), f.Search)
 	for i, c := range cases {
 		runCase(res, drv, real, c, i)
+	}
+	for i, c := range genHistory(f.Tier, rng.Fork(), f.Search) {
+		checkHistory(res, c, i)
 	}
 	res.Write(f.Out)
 }
